@@ -89,6 +89,91 @@ Arguments Ok {A}. Arguments Err {A}.
 Definition bind {A B} (r : res A) (f : A -> res B) : res B :=
   match r with Ok a => f a | Err e => Err e end.
 
+(* ------------------------------------------------------------ ASCII integers *)
+(* '%d' % v and int(word) on code points; _arr2txt / np.loadtxt for integer datatypes *)
+Fixpoint digits_aux (fuel : nat) (n : Z) (acc : str) : str :=
+  match fuel with
+  | O => acc
+  | S f => let acc' := (48 + n mod 10) :: acc in
+           if n / 10 =? 0 then acc' else digits_aux f (n / 10) acc'
+  end.
+Definition fmt_nat (n : Z) : str := digits_aux (S (Z.to_nat (Z.log2 n))) n [].
+Definition fmt_int (v : Z) : str := if v <? 0 then 45 :: fmt_nat (- v) else fmt_nat v.
+Fixpoint parse_nat (l : str) (acc : Z) : option Z :=
+  match l with
+  | [] => Some acc
+  | c :: r => if (48 <=? c) && (c <=? 57) then parse_nat r (10 * acc + (c - 48)) else None
+  end.
+Definition parse_int (l : str) : option Z :=
+  match l with
+  | [] => None
+  | c :: r => if c =? 45 then match r with [] => None | _ => option_map Z.opp (parse_nat r 0) end
+              else parse_nat l 0
+  end.
+
+(* str.join *)
+Fixpoint join (sep : Z) (l : list str) : str :=
+  match l with
+  | [] => []
+  | [x] => x
+  | x :: r => x ++ sep :: join sep r
+  end.
+(* split on any of the separator characters, dropping empty pieces (str.split() / blank lines) *)
+Fixpoint split_aux (seps : list Z) (l : str) (cur : str) : list str :=
+  match l with
+  | [] => match cur with [] => [] | _ => [rev cur] end
+  | c :: r => if existsb (Z.eqb c) seps
+              then match cur with [] => split_aux seps r [] | _ => rev cur :: split_aux seps r [] end
+              else split_aux seps r (c :: cur)
+  end.
+Definition split (seps : list Z) (l : str) : list str := split_aux seps l [].
+
+Fixpoint rows_of {A} (c : nat) (fuel : nat) (l : list A) : list (list A) :=
+  match fuel with
+  | O => []
+  | S f => match l with [] => [] | _ => firstn c l :: rows_of c f (skipn c l) end
+  end.
+Fixpoint all_some {A} (l : list (option A)) : option (list A) :=
+  match l with
+  | [] => Some []
+  | None :: _ => None
+  | Some x :: r => match all_some r with Some r' => Some (x :: r') | None => None end
+  end.
+
+(* the value an element (bit pattern of w bytes) is printed as, and back *)
+Definition elem_value (signed : bool) (w : nat) (u : Z) : Z := if signed then to_signed w u else u.
+Definition elem_of_value (signed : bool) (w : nat) (v : Z) : option Z :=
+  if signed then (if (- (pow256 w / 2) <=? v) && (v <? pow256 w / 2) then Some (of_signed w v) else None)
+  else (if (0 <=? v) && (v <? pow256 w) then Some v else None).
+
+(* _arr2txt(arr, '%d'): 1-D arrays one element per line, 2-D arrays one row per line; more
+   dimensions are refused (TypeError) *)
+Definition arr2txt_int (signed : bool) (w : nat) (dims : list nat) (dataC : list Z) : option str :=
+  let f := fun u => fmt_int (elem_value signed w u) in
+  match dims with
+  | [_] => Some (join 10 (map f dataC))
+  | [_; c] => Some (join 10 (map (fun row => join 32 (map f row)) (rows_of c (length dataC) dataC)))
+  | _ => None
+  end.
+(* np.loadtxt(text, integer dtype, ndmin=1): shape (unit axes squeezed) and elements, C order *)
+Definition loadtxt_int (signed : bool) (w : nat) (text : str) : option (list nat * list Z) :=
+  let rows := map (split [32; 9]) (split [10] text) in
+  match rows with
+  | [] => Some ([O], [])
+  | r0 :: _ =>
+    let c := length r0 in
+    if negb (forallb (fun r => (length r =? c)%nat) rows) then None
+    else match all_some (map (fun wd => match parse_int wd with Some v => elem_of_value signed w v | None => None end)
+                             (concat rows)) with
+         | None => None
+         | Some elems =>
+           let r := length rows in
+           Some (if (r =? 1)%nat || (c =? 1)%nat then [(r * c)%nat] else [r; c], elems)
+         end
+  end.
+Fixpoint assoc_b (k : Z) (t : list (Z * bool)) : option bool :=
+  match t with [] => None | (a, b) :: r => if a =? k then Some b else assoc_b k r end.
+
 Section Oracles.
   Variable b64dec : str -> option (list Z).      (* base64.b64decode(text.encode('ascii')) *)
   Variable zdecomp : list Z -> option (list Z).  (* zlib.decompress *)
@@ -108,7 +193,10 @@ Section Oracles.
         if existsb (fun d => d <? 0) (a_dims a) then Err EUnsupported   (* numpy treats -1 specially *)
         else if e =? enc_ascii then
           (* StringIO(None) is an empty file: an empty element reads as empty text *)
-          match loadtxt (a_datatype a) (match data with Some text => text | None => [] end) with
+          match (match assoc_b (a_datatype a) int_kind_table with
+                 | Some signed => loadtxt_int signed (Z.to_nat w)   (* integer datatypes: in the model *)
+                 | None => loadtxt (a_datatype a)                   (* floats: oracle *)
+                 end) (match data with Some text => text | None => [] end) with
           | None => Err EData
           | Some (shp, elems) =>
             if negb ((length elems =? nprod dims)%nat && (length elems =? nprod shp)%nat) then Err EData
